@@ -362,11 +362,18 @@ def get_utils(boundscheck, rec):
 			if "numba" in sys.modules:
 				sys.modules["numba"].config.CACHE_DIR = d
 		from tangermeme import utils
-		# canary: column 2 of a 2-column matrix; without bounds checking the
-		# write lands in row 1 of the harness-owned 3x2 buffer (harmless)
-		X = numpy.zeros((3, 2), dtype=numpy.int8)
-		st, v = gen.call(utils._fast_one_hot_encode, X, numpy.zeros(1,
-			dtype=numpy.int8), numpy.full(256, 2, dtype=numpy.int8))
+		# canary (harness-owned kernel, so that it does not depend on the
+		# package's private helpers): index 2 of a 2-element view; without
+		# bounds checking the write lands inside the harness-owned 6-element
+		# buffer (harmless)
+		import numba
+
+		@numba.njit
+		def canary(a):
+			a[2] = 1
+		buf = numpy.zeros(6, dtype=numpy.int8)
+		st, v = gen.call(canary, buf[:2])
+		X = buf
 		_BC["active"] = (os.environ.get("NUMBA_BOUNDSCHECK") == "1"
 			and st == "raise" and isinstance(v, IndexError))
 		if _BC["active"]:
